@@ -29,7 +29,7 @@ func (s *State) VerifSnapshot() VerifSnap {
 	if v.Empty {
 		return v
 	}
-	v.HistLen, v.HistIndex = s.h.VerifLenIndex()
+	v.HistLen, v.HistIndex = histLenIndex(s)
 	p := s.h.Current()
 	v.LoadingUp, v.LoadingDown = p.loadingUp, p.loadingDown
 	f := p.feed
@@ -69,3 +69,32 @@ func (s *State) VerifLockHeld() bool { return s.m.HeldByCurrent() }
 // VerifSize reads the terminal size the state currently assumes (call with the lock held
 // by the caller's goroutine, e.g. from the output callback).
 func (s *State) VerifSize() (int, int) { return s.width, s.height }
+
+// histLenIndex reads the history's length and position through its exported operations
+// only (walk back to the first page counting steps, forward to the last, and return to
+// where it was), so that it does not depend on how History stores its entries. Pages are
+// distinct pointers, so "Current did not change" means the end was reached.
+func histLenIndex(s *State) (length, index int) {
+	back := 0
+	for {
+		before := s.h.Current()
+		s.h.Back()
+		if s.h.Current() == before {
+			break
+		}
+		back++
+	}
+	total := 0
+	for {
+		before := s.h.Current()
+		s.h.Forward()
+		if s.h.Current() == before {
+			break
+		}
+		total++
+	}
+	for i := 0; i < total-back; i++ {
+		s.h.Back()
+	}
+	return total + 1, back
+}
